@@ -1,0 +1,18 @@
+//go:build verif
+
+package formatter
+
+// Exports of the byte-level post-passes of Format for the verification harness
+// (build tag `verif` only; not part of the normal build).
+
+func VerifStripTrailingLineWhitespace(data []byte) []byte {
+	return stripTrailingLineWhitespace(data)
+}
+
+func VerifRejoinStringInterpolations(data []byte) []byte {
+	return rejoinStringInterpolations(data)
+}
+
+func VerifCollapseBlankLines(data []byte, max int) []byte {
+	return collapseBlankLines(data, max)
+}
